@@ -3,6 +3,7 @@ package main
 import (
 	"fmt"
 	"go/ast"
+	"go/token"
 	"go/types"
 	"sort"
 	"strings"
@@ -48,6 +49,7 @@ func runC08(p *Prog, r *Report) {
 	c08R7(p, r)
 	c08R8(p, r)
 	c08R9(p, r)
+	c08R10(p, r)
 	// R5: the store file follows every acknowledged change (shared with C20-R2)
 	credFlushRule(p, r, "C08-R5")
 }
@@ -674,4 +676,186 @@ func c08R9(p *Prog, r *Report) {
 	})
 	r.Count("credential_map_element_stores", n)
 	r.Floor(rule, 3)
+}
+
+// c08R10: the "file unchanged, skip the reload" short-cut compares with what the file holds.
+func c08R10(p *Prog, r *Report) {
+	const rule = "C08-R10"
+	r.Rule(rule, "the reload short-cut tells the truth: when LoadFromFile skips a file whose content equals a remembered string, that string is refreshed by every operation that changes what the file holds or what the manager holds — the save path stores the bytes it wrote on every path from the successful write to its success return, and a completed load stores the content it parsed — so that a file restored to an earlier state is loaded again")
+	pkg := p.Pkg("cred")
+	var memo *types.Var
+	var loader *FuncCtx
+	var cmpVar types.Object
+	p.AllFuncs(pkg, func(fc *FuncCtx) {
+		if namedTypeName(recvNamed(fc)) != "ManagedServer" {
+			return
+		}
+		info := fc.Info()
+		for _, v := range fc.G.V {
+			x, y, op, ok := condParts(v)
+			if !ok || y == nil || (op != token.EQL && op != token.NEQ) {
+				continue
+			}
+			for _, pair := range [][2]ast.Expr{{x, y}, {y, x}} {
+				sel, isSel := ast.Unparen(pair[0]).(*ast.SelectorExpr)
+				if !isSel || objOf(info, sel.X) != fc.RecvObj() {
+					continue
+				}
+				f, _ := info.Uses[sel.Sel].(*types.Var)
+				if f == nil || !f.IsField() {
+					continue
+				}
+				if b, isB := f.Type().Underlying().(*types.Basic); !isB || b.Kind() != types.String {
+					continue
+				}
+				o := objOf(info, pair[1])
+				if o == nil {
+					continue
+				}
+				// the equal edge ends the function without an error and without touching the maps
+				lab := LTrue
+				if op == token.NEQ {
+					lab = LFalse
+				}
+				for _, e := range v.Succs {
+					if e.Label != lab {
+						continue
+					}
+					reach := fc.G.Reach([]int{e.To}, nil, nil)
+					quiet := true
+					for _, fa := range fc.FieldAccesses(mp("cred"), "ManagedServer", map[string]bool{"cachedCredMap": true, "cachedUserLookupMap": true}) {
+						if fa.Write && reach[fa.V] {
+							quiet = false
+						}
+					}
+					if quiet {
+						memo, loader, cmpVar = f, fc, o
+					}
+				}
+			}
+		}
+	})
+	if memo == nil {
+		r.OK(rule, "cred.(*ManagedServer):no-short-cut", "cred/manager.go", "no reload short-cut on remembered content: every reload parses the file")
+		r.Floor(rule, 1)
+		return
+	}
+	// the loader stores the content it compared, past the point where the new maps are installed
+	nLoad := 0
+	for _, fa := range loader.FieldAccesses(mp("cred"), "ManagedServer", map[string]bool{memo.Name(): true}) {
+		if !fa.Write {
+			continue
+		}
+		nLoad++
+		as, _ := loader.G.V[fa.V].Node.(*ast.AssignStmt)
+		uses := false
+		if as != nil {
+			for _, rhs := range as.Rhs {
+				ast.Inspect(rhs, func(n ast.Node) bool {
+					if id, ok := n.(*ast.Ident); ok && loader.Info().Uses[id] == cmpVar {
+						uses = true
+					}
+					return true
+				})
+			}
+		}
+		r.Check(uses, rule, loader.Name+":remembers-what-it-loaded", p.posStr(fa.Sel.Pos()), "the remembered content is the content just parsed", "the loader remembers something other than the content it parsed")
+	}
+	r.Check(nLoad > 0, rule, loader.Name+":remembers", p.posStr(loader.Body.Pos()), "a completed load refreshes the remembered content", "a completed load does not refresh the remembered content")
+	// every function of the package that replaces the store file refreshes it too
+	nSave := 0
+	p.AllFuncs(pkg, func(fc *FuncCtx) {
+		if namedTypeName(recvNamed(fc)) != "ManagedServer" {
+			return
+		}
+		info := fc.Info()
+		for _, cs := range fc.AllCalls() {
+			if cs.Fn == nil {
+				continue
+			}
+			callee := p.CtxOfObj(cs.Fn)
+			isWrite := osFn(cs.Fn, "Rename") || osFn(cs.Fn, "WriteFile")
+			if callee != nil && callee.Pkg == fc.Pkg && callee.Body != nil && namedTypeName(recvNamed(callee)) != "ManagedServer" {
+				for _, c2 := range callee.AllCalls() {
+					if c2.Fn != nil && osFn(c2.Fn, "Rename") {
+						isWrite = true
+					}
+				}
+			}
+			if !isWrite {
+				continue
+			}
+			nSave++
+			// data argument: the []byte handed to the write
+			var data types.Object
+			for _, a := range cs.Call.Args {
+				if t := info.TypeOf(a); t != nil {
+					if sl, ok := t.Underlying().(*types.Slice); ok {
+						if b, ok := sl.Elem().Underlying().(*types.Basic); ok && b.Kind() == types.Byte {
+							data = objOf(info, a)
+						}
+					}
+				}
+			}
+			stores := map[int]bool{}
+			fromData := true
+			for _, fa := range fc.FieldAccesses(mp("cred"), "ManagedServer", map[string]bool{memo.Name(): true}) {
+				if !fa.Write {
+					continue
+				}
+				stores[fa.V] = true
+				uses := false
+				if as, ok := fc.G.V[fa.V].Node.(*ast.AssignStmt); ok {
+					for _, rhs := range as.Rhs {
+						ast.Inspect(rhs, func(n ast.Node) bool {
+							if id, ok := n.(*ast.Ident); ok && data != nil && info.Uses[id] == data {
+								uses = true
+							}
+							return true
+						})
+					}
+				}
+				if !uses {
+					fromData = false
+				}
+			}
+			bad := ""
+			okEdges := cs.ResultEdges(-1, WantNil)
+			if len(okEdges) == 0 {
+				// `return write(...)`: the success of the write is the function's success, nothing follows it
+				bad = "the result of the write is returned as it is: nothing is remembered after a successful write"
+				if len(stores) > 0 {
+					bad = ""
+				}
+			}
+			for _, e := range okEdges {
+				reach := fc.G.Reach([]int{e.To}, func(v *Vertex) bool { return stores[v.ID] }, nil)
+				for _, ret := range fc.ExitPreds() {
+					if reach[ret] && fc.ErrAtReturn(ret) != ErrNonNil {
+						bad = "a successful write can reach " + p.posStr(fc.G.V[ret].Node.Pos()) + " without refreshing " + memo.Name()
+					}
+				}
+			}
+			if bad == "" && len(stores) == 0 {
+				bad = memo.Name() + " is never refreshed after the write"
+			}
+			if bad == "" && !fromData {
+				bad = memo.Name() + " is refreshed from something other than the bytes written"
+			}
+			r.Check(bad == "", rule, fc.Name+":remembers-what-it-wrote", cs.Pos(), "every success path past the write stores the written bytes as the remembered content", bad+": after a save the remembered content is that of the last load, so a reload of a file restored to that earlier state is skipped — revoked users keep working and the listing disagrees with the file")
+		}
+	})
+	r.Check(nSave > 0, rule, "cred.(*ManagedServer):store-writers", "cred/manager.go", fmt.Sprintf("%d functions replace the store file", nSave), "no function replacing the store file was found")
+	r.Floor(rule, 3)
+}
+
+// recvNamed: the receiver type of the declared function fc belongs to (nil for plain functions).
+func recvNamed(fc *FuncCtx) types.Type {
+	for fc.Parent != nil {
+		fc = fc.Parent
+	}
+	if fc.Obj == nil {
+		return nil
+	}
+	return recvTypeOf(fc.Obj)
 }
